@@ -146,6 +146,33 @@ static void part_values() {
   }
 }
 
+// ---- an object is serialised, modified and serialised again: the second result must be that of a fresh object -----------------
+// (per-field size caches live inside the object; every ordered pair of the aggregate value alphabet is tried)
+static void assign_params(Plain& p, int a, const std::string& s, size_t n) { p.a = a; p.s = s; p.v.assign(n, a); }
+static void assign_params(Compat& c, int a, const std::string& s, size_t n) { c.a = a; c.s = s; c.v.assign(n, (int64_t)a << 33); if (n) c.p.reset(new int32_t(a)); else c.p.reset(); }
+static void assign_params(Derived& d, int a, const std::string& s, size_t n) { d.x = a; d.y = s; d.z = (int64_t)n - 1; }
+static void assign_params(Big& g, int a, const std::string& s, size_t n) { g.m0 = a; g.m5 = (int)n; g.m9 = -a; g.m10 = s; assign_params(g.m11, a, s, n); }
+static void assign_params(Nested& ne, int a, const std::string& s, size_t n) { ne.c.a = a; ne.c.s = s; Plain p; assign_params(p, a, s, n); ne.ps.assign(n, p); if (a) { ne.b.reset(new Base); ne.b->x = a; ne.b->y = s; } else ne.b.reset(); }
+template <class T> static void reuse_pairs(const char* tname) {
+  struct P { int a; std::string s; size_t n; }; std::vector<P> ps;
+  for (int a : {0, -1, 300}) for (auto& s : {std::string(), std::string("hi")}) for (size_t n : {0u, 2u}) ps.push_back({a, s, n});
+  for (auto& p1 : ps) for (auto& p2 : ps) {
+    SA->values++;
+    T obj; assign_params(obj, p1.a, p1.s, p1.n);
+    std::string first, second, want;
+    if (!Serialization::serialize_to_string(obj, first)) { violation(std::string(tname) + ": serialize_to_string failed"); return; }
+    assign_params(obj, p2.a, p2.s, p2.n);
+    if (!Serialization::serialize_to_string(obj, second)) { violation(std::string(tname) + ": serialising a modified object failed"); return; }
+    T fresh; assign_params(fresh, p2.a, p2.s, p2.n); Serialization::serialize_to_string(fresh, want);
+    if (second != want) { violation(std::string(tname) + ": an object that was serialised, modified and serialised again produced " + hex(second) + " but a fresh object with the same value produces " + hex(want) + " (first serialisation: " + hex(first) + ")"); return; }
+    if (Serialization::calculate_serialized_size(obj) != second.size()) { violation(std::string(tname) + ": calculate_serialized_size of a re-used object differs from the bytes produced"); return; }
+  }
+}
+static void part_reuse() {
+  reuse_pairs<Plain>("Plain (BABYLON_SERIALIZABLE)"); reuse_pairs<Compat>("Compat (BABYLON_COMPATIBLE)"); reuse_pairs<Derived>("Derived (with base)");
+  reuse_pairs<Big>("Big (12 members, cached sizes)"); reuse_pairs<Nested>("Nested");
+}
+
 // ---- protobuf wire compatibility of the documented field kinds -------------------------------------------------------------------
 static void fill(Wire& w, TestMessage& m, int k) {
   static const int32_t i32s[] = {0, 1, -1, INT32_MIN, INT32_MAX}; static const int64_t i64s[] = {0, 1, -1, INT64_MIN, INT64_MAX}; static const uint64_t u64s[] = {0, 1, 127, 128, UINT64_MAX};
@@ -233,6 +260,7 @@ int main(int argc, char** argv) {
   std::vector<Shard> shards = {
     {"value alphabets: round trip, exact size, all presentations", [] { part_values(); }},
     {"protobuf wire compatibility", [] { part_compat(); }},
+    {"objects serialised, modified and serialised again (all ordered pairs of aggregate values)", [] { part_reuse(); }},
   };
 #define HOSTILE(T, NAME) \
   shards.push_back({"hostile input -> " NAME " (all bytes)", [&] { hostile_all<T>(NAME, all, full_len, [] { return T(); }, deadline); }}); \
